@@ -18,6 +18,12 @@ def main(c):
             filt=(False, True), limits={"a1": 2, "a2": 2, "b1": 1}),
         Cfg("w2", ["p1", "p2"], ["a1", "a2", "b1", "c1"], {"A": [0, 1], "B": [0], "C": [0, 1]}, ["c1", "cN"], ["n1"],
             filt=(False, True), limits={"a1": 0, "a2": 1, "c1": 2}),
+        # focused behaviours (few operation kinds, so that long chains of the same mechanism are likely): a peer that restarts
+        # and re-announces - partly, under other path ids, with routes that carry LLGR_STALE themselves - before the purge
+        Cfg("w3", ["p1", "p2"], ["a1", "a2", "b1"], {"A": [0, 1], "B": [0]}, ["c1", "cL", "cN"], ["n1"], filt=(False, True),
+            ops=["insert", "remove", "markllgr", "dropllgr"]),
+        Cfg("w4", ["p1", "p2"], ["a1", "a2", "b1"], {"A": [0, 1], "B": [0]}, ["c1", "c3"], ["n1", "n2"], filt=(False, True),
+            limits={"a1": 1, "a2": 2}, ops=["insert", "remove", "markstale", "dropstale", "nhflip"]),
     ]
     if thorough:
         design += [
